@@ -22,7 +22,8 @@ pub fn pseudoprime(p: Uint) -> bool {
     }
 
     let zp = ZmodN::new(p);
-    let s = (p.low_u64() - 1).trailing_zeros();
+    // p - 1 = p_odd << s with p_odd odd (the 2-adic valuation can exceed one word).
+    let s = (p - Uint::ONE).trailing_zeros();
     let p_odd = p >> s;
     for &b in &fbase::SMALL_PRIMES {
         let mut pow = pow_mod(&zp, zp.from_int(b.into()), &p_odd);
@@ -138,15 +139,17 @@ pub fn pseudoprime(p: Uint) -> (r: bool)
         zp.lemma_wf_r();
     }
     let ghost low = (pn % W()) as u64;
-    let s = (p.low_u64() - 1).trailing_zeros();
+    // p - 1 = p_odd << s with p_odd odd (the 2-adic valuation can exceed one word).
+    proof { lemma_buint_ops_all::<16>(); axiom_uv_bound(p); }
+    let s = (p - ol_uint_one()).trailing_zeros();
     proof {
         axiom_buint_shr_u32(p, s);
-        lemma_miller_decomp_big(pn, low, s);
+        lemma_miller_decomp_full(pn, s);
     }
     let p_odd = p >> s;
     let ghost dd = uv(p_odd);
     for verif_r_b in 0..fbase::SMALL_PRIMES.len()
-        invariant zp.wf(), zp.nval() == uv(p), uv(p) >= 0x1_0000_0000_0000_0000, 1 <= s <= 64,
+        invariant zp.wf(), zp.nval() == uv(p), uv(p) >= 0x1_0000_0000_0000_0000, 1 <= s < 1024,
             bitlen(uv(p)) > 64, uv(p) % 2 == 1, pn == uv(p), rr == zp.rr(), ee == 64 * zp.kval(), rr == pow2(ee),
             dd == uv(p_odd), dd > 0, (pn - 1) as nat == dd * pow2(s as nat),
     {
